@@ -233,7 +233,7 @@ def _timeline(rec, rng, sim, R, V, srv, pi, pt, n, monitor, rto, desc):
                                       ''.join(sorted(set(s.plan[0]
                                                          for s in R.S))),
                                       rto))
-    if rec.evaluations % 97 == 0:
+    if rec.evaluations % 97 == 1:
         rec.sample({'config': desc, 'pings': [round(x, 6) for x in
                                               R.S[0].pings[:5]],
                     'pongs': [round(x, 6) for x in R.S[0].pongs[:5]],
